@@ -309,13 +309,15 @@ impl Fixed {
     /// the fractional bits.
     #[inline(always)]
     pub const fn to_i32(self) -> i32 {
-        self.0.wrapping_add(0x8000) >> 16
+        // Widen so that values that round up to 32768 don't wrap around
+        ((self.0 as i64 + 0x8000) >> 16) as i32
     }
 
     /// Converts a 16.16 to 26.6 fixed point value.
     #[inline(always)]
     pub const fn to_f26dot6(self) -> F26Dot6 {
-        F26Dot6(self.0.wrapping_add(0x200) >> 10)
+        // Widen so that values that round up to 32768.0 don't wrap around
+        F26Dot6(((self.0 as i64 + 0x200) >> 10) as i32)
     }
 
     /// Converts a 16.16 to 2.14 fixed point value.
@@ -358,7 +360,8 @@ impl F26Dot6 {
     /// the fractional bits.
     #[inline(always)]
     pub const fn to_i32(self) -> i32 {
-        self.0.wrapping_add(32) >> 6
+        // Widen so that values that round up to 2^25 don't wrap around
+        ((self.0 as i64 + 32) >> 6) as i32
     }
 
     /// Converts a 26.6 fixed point value to a single precision floating
